@@ -584,6 +584,25 @@ pub fn mig_grid() -> Vec<History> {
             k.to_string(),
             BidOrderV2 {
                 base: coin(30, "base"),
+                // two identical consecutive fills (same block), then a reject; no fee anywhere
+                events: vec![
+                    ev(Action::Fill { base: coin(4, "base"), fee: None, price: "3".into(), quote: coin(12, "quote1") }),
+                    ev(Action::Fill { base: coin(4, "base"), fee: None, price: "3".into(), quote: coin(12, "quote1") }),
+                    ev(Action::Reject { base: coin(12, "base"), fee: None, quote: coin(36, "quote1") }),
+                ],
+                fee: None,
+                id: k.to_string(),
+                owner: Addr::unchecked("buyer1"),
+                price: "3".into(),
+                quote: coin(90, "quote1"),
+            },
+        )
+    };
+    let v2refund = |k: &str| {
+        (
+            k.to_string(),
+            BidOrderV2 {
+                base: coin(30, "base"),
                 events: vec![
                     ev(Action::Fill { base: coin(10, "base"), fee: None, price: "2.5".into(), quote: coin(25, "quote1") }),
                     ev(Action::Refund { fee: None, quote: coin(5, "quote1") }),
@@ -608,7 +627,7 @@ pub fn mig_grid() -> Vec<History> {
         (vec![ask.clone()], vec![v3(k_mid)], vec![]),
         (vec![ask.clone()], vec![], vec![v2(k_lo), v2plain(k_hi)]),
         (vec![], vec![v3(k_mid)], vec![v2plain(k_lo), v2(k_hi)]),
-        (vec![ask.clone()], vec![v3(k_lo)], vec![v2(k_hi)]),
+        (vec![ask.clone()], vec![v3(k_lo)], vec![v2refund(k_hi)]),
         (vec![], vec![], vec![v2(k_legacy)]),
     ];
     let none = MigrateMsg {
